@@ -208,3 +208,34 @@ impl<T> Lazy<T> {
         self.0 = None;
     }
 }
+
+/// Run `f` with file descriptor 1 redirected to a scratch file and return what was
+/// printed (the definitions parser reports syntax complaints with `println!`).
+pub fn capture_stdout<R>(f: impl FnOnce() -> R) -> (R, String) {
+    use std::io::Write;
+    use std::os::unix::io::AsRawFd;
+    let _ = std::io::stdout().flush();
+    let dir = std::env::var("VERIF_DIR").unwrap_or_else(|_| "/verif".into());
+    let _ = std::fs::create_dir_all(format!("{}/target/tmp", dir));
+    let path = format!("{}/target/tmp/stdout-{}.txt", dir, std::process::id());
+    let file = std::fs::OpenOptions::new()
+        .create(true)
+        .write(true)
+        .truncate(true)
+        .open(&path)
+        .expect("scratch file");
+    let saved = unsafe { libc::dup(1) };
+    unsafe { libc::dup2(file.as_raw_fd(), 1) };
+    let r = std::panic::catch_unwind(std::panic::AssertUnwindSafe(f));
+    let _ = std::io::stdout().flush();
+    unsafe {
+        libc::dup2(saved, 1);
+        libc::close(saved);
+    }
+    let text = std::fs::read_to_string(&path).unwrap_or_default();
+    let _ = std::fs::remove_file(&path);
+    match r {
+        Ok(r) => (r, text),
+        Err(p) => std::panic::resume_unwind(p),
+    }
+}
